@@ -3229,9 +3229,15 @@ func (db *DB) checksum(pageN uint32, newWALChecksums map[uint32]ltx.Checksum) (l
 	blockN := pageChksumBlock(pageN) + 1
 	ignoredBlocks := make([]bool, blockN)
 	for pgno := range db.wal.chksums {
+		if pageChksumBlock(pgno) >= blockN {
+			continue // truncated page in a block beyond the new database size
+		}
 		ignoredBlocks[pageChksumBlock(pgno)] = true
 	}
 	for pgno := range newWALChecksums {
+		if pageChksumBlock(pgno) >= blockN {
+			continue // truncated page in a block beyond the new database size
+		}
 		ignoredBlocks[pageChksumBlock(pgno)] = true
 	}
 
